@@ -564,6 +564,16 @@ pub fn c10_transports(v: &Verdicts, cases: &[(Who, Vec<(String, String)>)], budg
                 }
             }
         }
+        // an administrator session of the corpus may have changed what the probes rely on (the token of `db`): put it back
+        // in-process first, so that a refused probe means a dead service and not a changed password
+        if let Ok(m) = live.dbs.map.read() {
+            if let Some(d) = m.get("db") {
+                let cur = d.get_value("$$token".to_string()).map(|v| v.value);
+                if cur.as_deref() != Some("tok") {
+                    d.set_value(&nundb::bo::Change::new("$$token".to_string(), "tok".to_string(), -1));
+                }
+            }
+        }
         // liveness of the node for other clients, over the same transport (all three every 25 sessions)
         st.probes += 1;
         let probes: Vec<(&str, Result<(), String>)> = if marker % 25 == 0 || problem.is_some() {
